@@ -17,7 +17,8 @@ SUBJECT_EXCLUDED = {"lazy-ignores"}  # its subject is the suppression comments t
 CM = {"py": "#", "ts": "//", "js": "//", "rs": "//"}
 FORMS = ["same-line", "next-line", "block", "block2", "file@1", "file@5", "file@10", "file@11", "file@40", "thailintignore", "config-ignore", "linter-ignore"]
 SPELLINGS = ["full", "prefix", "wildcard", "upper", "mixed-list", "bare", "wildcard-upper", "wildcard-mixed-case", "prefix-mixed-case", "full-mixed-case",
-             "bare-trailing-ws", "full-trailing-ws"]  # (the last two: blanks / a tab after the directive, which an editor or a formatter may leave)
+             "bare-trailing-ws", "full-trailing-ws",  # (blanks / a tab after the directive, which an editor or a formatter may leave)
+             "full-after-other-tool"]  # (the directive follows another tool's own ignore[...] comment on the same line)
 NEG_SPELLINGS = ["other-rule", "other-prefix"]
 SECTION = {"pipeline": "collection-pipeline", "perf": "performance", "string-concat-loop": "performance", "regex-in-loop": "performance",
            "print-statements": "print-statements", "improper-logging": "improper-logging"}
@@ -65,7 +66,7 @@ def spell(rule_id: str, kind: str):
         return [ALIASES[rule_id][0]]
     if kind in ("bare", "bare-trailing-ws"):
         return None
-    if kind == "full-trailing-ws":
+    if kind in ("full-trailing-ws", "full-after-other-tool"):
         return [rule_id]
     if kind == "other-rule":
         return ["totally-different.rule"]
@@ -322,6 +323,13 @@ def run_flavour(ctx, rng, files, flavour, matrix):
             if res is None:
                 continue
             nf, shift, in_scope = res
+            if cell["spelling"] == "full-after-other-tool":
+                if form != "same-line":
+                    continue
+                other = "# type: ignore[arg-type]" if cell["lang"] == "py" else "// other-tool: ignore[some-check]"
+                nf = dict(nf)
+                nf[f] = "\n".join(re.sub(r"(\s*)((?://|#) (?:thailint|design-lint): ignore\[)", lambda m: "  " + other + "  " + m.group(2), ln, count=1) if in_scope(i) or True else ln
+                                   for i, ln in enumerate(nf[f].split("\n"), 1))
             if cell["spelling"].endswith("-trailing-ws"):
                 nf = dict(nf)
                 nf[f] = "\n".join((ln + "  \t" if re.search(r"(?:thailint|design-lint): ignore[^\n]*$", ln) else ln) for ln in nf[f].split("\n"))
